@@ -117,6 +117,9 @@ def parse_kani(out, harnesses, rc, wall, cmd):
     if m:
       status = m.group(1)
     failed = re.findall(r"(?m)^Failed Checks: (.*)$", ch)
+    # "CBMC failed" / out of memory / timed out: the back end gave up -- no verdict, never a violation
+    if status == "FAILED" and (not failed or "out of memory" in ch or "CBMC timed out" in ch):
+      status = None
     tm = re.search(r"Verification Time: ([0-9.]+)s", ch)
     stubs = re.findall(r"(?m)^\s*- Stub: .*$", ch)
     pb = None
